@@ -1,5 +1,4 @@
-import PicoProofs.SpecLaws
-import PicoProofs.DecSafe
+import PicoProofs.EndToEnd
 import PicoProofs.Tie
 /-
 C10 — Unknown fields never disturb known ones; captured ones are forwarded intact.
@@ -41,5 +40,26 @@ theorem C10_marshal_reemits (S : Schema) (id : Nat) (slots : List Val) (unrec : 
 and the specification rejects an incomplete unknown field -/
 theorem C10_malformed_unknown_no_crash (S : Schema) (id : Nat) (data : Bytes) (m0 : Val) :
     ∃ d m, Gen2.unmarshal S id data m0 = .ok (d, m) := Gen2.unmarshal_total S id data m0
+
+/-- MACHINE LEVEL: the real decoder computes the specification on every input, so all of the above
+hold for `Gen2.unmarshal` — e.g. an inserted unknown field does not change verdict or value -/
+theorem C10_unmarshal_skips_unknown (S : Schema) (hS : S.supported = true) (id : Nat) (a u b : Bytes) (r : Record)
+    (n : Nat) (rs : List Record)
+    (hu : parse1 u = some (r, [])) (hf : findField (S.msg id).fields r.num = none)
+    (hc : (S.msg id).capture = false) (ha : records n a = some rs) :
+    ∃ d m d' m', Gen2.unmarshal S id (a ++ u ++ b) (Gen2.zeroMsg S id) = .ok (d, m) ∧
+      Gen2.unmarshal S id (a ++ b) (Gen2.zeroMsg S id) = .ok (d', m') ∧
+      (d.err = none ↔ d'.err = none) ∧ (d.err = none → m = m') := by
+  obtain ⟨d, m, hr, hiff, hval⟩ := Gen2.unmarshal_new_refines_spec S hS id (a ++ u ++ b)
+  obtain ⟨d', m', hr', hiff', hval'⟩ := Gen2.unmarshal_new_refines_spec S hS id (a ++ b)
+  have heq := unknown_skipped_records S id b (m := Gen2.zeroMsg S id) hu hf hc ha
+  refine ⟨d, m, d', m', hr, hr', ?_, ?_⟩
+  · rw [hiff, hiff', heq]
+  · intro he
+    have e1 := hval he
+    have he' : d'.err = none := by rw [hiff', ← heq, e1]; rfl
+    have e2 := hval' he'
+    rw [heq, e2] at e1
+    exact (Option.some.inj e1).symm
 
 end Pico.Props
